@@ -10,6 +10,7 @@
 import FtProofs.Lemmas.SplitUniform
 import FtProofs.Lemmas.SplitNonUniform
 import FtProofs.Lemmas.SplitSpec
+import FtProofs.Lemmas.SplitChunks
 set_option linter.unusedSectionVars false
 set_option linter.unusedSimpArgs false
 set_option linter.unusedVariables false
@@ -368,6 +369,94 @@ theorem depth_coords (cfg : SplitCfg) (dflt : ν) (d k : Nat) (t : Tree Int ν (
     have hr : r = l := (Option.some.inj h).symm
     subst hr
     exact keys_mapM? (splitAt cfg dflt d k) _ _ hm
+
+end
+
+/-! ### position space: the lowers are the chunks -/
+
+section
+variable {π : Type}
+
+/-- **splitEqual in position space** (halo 0): the active presented elements are cut into
+    consecutive chunks of `step` elements, the remainder last; the first upper coordinate is the
+    active start, every other the first coordinate of its chunk; each lower's active range runs
+    from its upper coordinate to the next one (the last to the active end) -/
+theorem equal_chunks (step as ae : Int) (rel : Bool) (elems : Fib Int π)
+    (hstep : 1 ≤ step) (hact : as < ae) (hsorted : Sorted elems) :
+    splitEqualIter step 0 0 as ae rel elems =
+      some (chunkParts as ae rel (chunksOf step.toNat
+        (elems.filter (fun e => decide (as ≤ e.1) && decide (e.1 < ae))))) := by
+  rw [equal_spec step 0 0 as ae rel elems hact (Int.le_refl _) (Int.le_refl _) hsorted,
+    iterActive_eq_filter as ae elems hsorted, equalBounds_eq, eqBounds_chunks step as hstep _ 0 (by simp)]
+  have hn : step.toNat ≠ 0 := by omega
+  simp only [if_true]
+  rw [nuSpec_chunks as ae rel elems hsorted _ as (chunksOf_nonempty _ hn _) (Int.le_refl _)]
+  · rfl
+  · rw [chunksOf_flatten _ hn]
+    apply filter_congr'
+    intro x _
+    by_cases h : as ≤ x.1 <;> simp [h]
+
+example : splitEqualIter 2 0 0 0 9 false [((1 : Int), (10 : Int)), (2, 20), (5, 50), (6, 60), (8, 80)] =
+    some [⟨0, [(1, 10), (2, 20)], 0, 5⟩, ⟨5, [(5, 50), (6, 60)], 5, 8⟩, ⟨8, [(8, 80)], 8, 9⟩] := by decide
+
+/-- **splitUnEqual in position space** (halo 0) — partial: proved for a non-empty list of positive
+    sizes: chunks of the stated sizes, whatever remains in one last chunk.  (With `sizes = []` the
+    code returns no partition at all, see `unequal_empty_sizes_witness`.) -/
+theorem unequal_chunks_partial (sizes : List Int) (as ae : Int) (rel : Bool) (elems : Fib Int π)
+    (hne : sizes ≠ []) (hpos : ∀ s ∈ sizes, 1 ≤ s) (hact : as < ae) (hsorted : Sorted elems) :
+    splitUnEqualIter sizes 0 0 as ae rel elems =
+      some (chunkParts as ae rel (takeChunks (sizes.map Int.toNat)
+        (elems.filter (fun e => decide (as ≤ e.1) && decide (e.1 < ae))))) := by
+  rw [unequal_spec sizes 0 0 as ae rel elems hact (Int.le_refl _) (Int.le_refl _) hsorted,
+    iterActive_eq_filter as ae elems hsorted, unequalBounds_chunks sizes hne hpos as]
+  rw [nuSpec_chunks as ae rel elems hsorted _ as
+    (takeChunks_nonempty _ _ (by
+      intro s hs
+      obtain ⟨z, hz, rfl⟩ := List.mem_map.1 hs
+      have := hpos z hz
+      omega)) (Int.le_refl _)]
+  · rfl
+  · rw [takeChunks_flatten]
+    apply filter_congr'
+    intro x _
+    by_cases h : as ≤ x.1 <;> simp [h]
+
+example : splitUnEqualIter [1, 2] 0 0 0 9 false [((1 : Int), (10 : Int)), (2, 20), (5, 50), (6, 60), (8, 80)] =
+    some [⟨0, [(1, 10)], 0, 2⟩, ⟨2, [(2, 20), (5, 50)], 2, 6⟩, ⟨6, [(6, 60), (8, 80)], 6, 9⟩] := by decide
+
+/-- the excluded class is real: `Fiber([3],[5]).splitUnEqual([])` yields no partition although the
+    remainder rule would put the element into one final chunk -/
+theorem unequal_empty_sizes_witness :
+    splitUnEqualIter [] 0 0 0 4 false [((3 : Int), (5 : Int))] = some [] ∧
+    chunkParts 0 4 false (takeChunks ([] : List Nat) [((3 : Int), (5 : Int))]) = [⟨0, [(3, 5)], 0, 4⟩] := by
+  decide
+
+end
+
+section
+variable {π : Type}
+
+/-- `//`: at most `n` partitions (the chunk size is computed from the raw occupancy `occ`, the
+    chunks then count presented active elements — adopted reading DESIGN §7.1) -/
+theorem floordiv_parts (occ : Nat) (n as ae : Int) (rel : Bool) (elems : Fib Int π)
+    (hn : 0 < n) (hocc : elems.length ≤ occ) :
+    (chunkParts as ae rel (chunksOf (floordivStep occ n).toNat
+      (elems.filter (fun e => decide (as ≤ e.1) && decide (e.1 < ae))))).length ≤ n.toNat := by
+  unfold chunkParts
+  rw [chunkPartsFrom_length]
+  apply chunksOf_length_le
+  have hlen : (elems.filter (fun e => decide (as ≤ e.1) && decide (e.1 < ae))).length ≤ occ :=
+    Nat.le_trans (List.length_filter_le _ _) hocc
+  unfold floordivStep
+  have h1 := Int.lt_ediv_add_one_mul_self ((occ : Int) + n - 1) hn
+  rw [succ_mul'] at h1
+  have hq : 0 ≤ ((occ : Int) + n - 1) / n := Int.ediv_nonneg (by omega) (by omega)
+  have hcast : ((n.toNat * (((occ : Int) + n - 1) / n).toNat : Nat) : Int) = n * (((occ : Int) + n - 1) / n) := by
+    rw [Int.natCast_mul, Int.toNat_of_nonneg (by omega), Int.toNat_of_nonneg hq]
+  have : (occ : Int) ≤ ((n.toNat * (((occ : Int) + n - 1) / n).toNat : Nat) : Int) := by
+    rw [hcast, Int.mul_comm]; omega
+  omega
 
 end
 
